@@ -9,8 +9,8 @@ import FP.Proofs.Decomp
 # FP.Proofs.C09WalkComplete — completeness of the `kPathCoverCycles` LP, and the minimum search
 
 * `WalkCoverWithin inp walk`: `inp.k` source-to-sink walks of the augmented graph (inner vertex sequences)
-  within the repetition caps of the model (`kcovercCap`: `|E|·|V|` of the augmented graph on the edges
-  inside an SCC, `1` outside), covering every edge that is not ignored and every subset constraint (to the
+  within the repetition caps of the model (`kcovercCap`: `|E|·|V|` of the augmented graph — a natural
+  number, which the flooring of fix fcfd0b0 leaves alone — on the edges inside an SCC, `1` outside), covering every edge that is not ignored and every subset constraint (to the
   coverage fraction of the model, `coversB`).
 * `c09k_complete_proof`: every such family extends to a satisfying assignment of `kcovercLP` whose edge
   variables are the traversal counts (connectivity witnesses: first-entry edges `walkSel` and first-visit
@@ -30,10 +30,8 @@ open FP.Spec FP.Search
 theorem c09k_cap_scc (inp : WalkInput) (e : Edge) (he : e ∈ inp.st.g.edges)
     (h : isSccEdge inp.st.g e = true) :
     kcovercCap inp e = ((inp.st.g.edges.length * inp.st.g.nodes.length : Nat) : Rat) := by
-  unfold kcovercCap lookupD kcovercBounds capBounds
-  rw [lookup_map_self _ _ e he]
-  unfold isSccEdge at h
-  simp [h]
+  unfold kcovercCap kcovercBounds
+  rw [lookupD_capBounds _ _ e he, if_pos h, floor_natCast_cast]
 
 /-- a graph with a source-to-sink walk has at least three nodes and an edge: `2|E| + 1 ≤ |E|·|V|` -/
 theorem c09k_size (s : STGraph) (hwf : STWFc s) (p : List Node)
